@@ -59,6 +59,6 @@ func (o *OnceHandle) Once() Component {
 		if o.c != nil {
 			return o.c.Render(ctx, w)
 		}
-		return GetChildren(ctx).Render(ctx, w)
+		return renderChildren(ctx, w)
 	})
 }
